@@ -389,6 +389,20 @@ def gen_file(rng, natoms=None, ninstr=None, with_qpeaks=True, restraints=True, k
                 toks = ['RESI', str(num), cls]
             add(toks, 'resi', number=num, cls=cls)
             ctx['resi'] = (num, cls)
+            # a residue that was copied and not moved yet: an atom line of an earlier residue once more, character by character
+            earlier = [l for l in lines if l['kind'] == 'atom' and l['atom']['resinum'] != num and not l['atom']['qpeak']]
+            if earlier and rng.random() < 0.3:
+                src = rng.choice(earlier)
+                dup = dict(src['atom'], resinum=num, resiclass=cls, part=ctx['part'][0], afix=ctx['afix'])
+                if ctx['part'][1] is not None:
+                    dup['sof'] = ctx['part'][1]
+                elif src['atom']['own_sof'] is not None:
+                    dup['sof'] = src['atom']['own_sof']
+                else:
+                    dup['sof'] = 11.0
+                if not (src['atom']['ncols'] == 5 and ctx.get('afix') and ctx.get('afix_sof')):
+                    atoms.append(dup)
+                    add(list(src['tokens']), 'atom', atom=dup)
         elif parts and r < 0.3:
             n = rng.choice([1, 2, -1, 0])
             sof = rng.choice([None, None, 21.0, -21.0, 10.5]) if n != 0 else None
